@@ -1175,7 +1175,7 @@ func main() {
 		defer pprof.StopCPUProfile()
 	}
 	verifhook.SetHandler(hookHandler)
-	n := f.Count(36, 600)
+	n := f.Count(48, 2500)
 	root, err := os.MkdirTemp(f.Out, "c06")
 	if err != nil {
 		panic(err)
@@ -1201,7 +1201,7 @@ func main() {
 	wg.Wait()
 	verifhook.SetHandler(nil)
 
-	cf := &gallina.CaseFile{Dir: f.Out, Type: "case", PerShard: 36,
+	cf := &gallina.CaseFile{Dir: f.Out, Type: "case", PerShard: 24,
 		Preamble: "From Coq Require Import List ZArith Uint63.\nFrom Verif Require Import model.CompactRace corr.CorrC06.\nImport ListNotations.\nOpen Scope uint63_scope.\n",
 		Footer:   gallina.StdFooter}
 	for i, r := range results {
